@@ -77,6 +77,35 @@ instance : Monad Rd where
 /-- `raise e` -/
 def fail {α : Type} (e : Err) : Rd α := fun _ _ k => .err e k
 
+/-! ## What the cost counter measures
+
+The same decoders are run under two measures: `reads` (one unit per call of a primitive reader — the
+time side) and `bytes` (the number of bytes the call slices out of the buffer, i.e. what
+`data[cur:cur+n]` copies — the memory side).  The measure is an instance argument with `reads` as
+the default instance, so that `decodeMetadata` means the read-counting decoder. -/
+
+inductive Measure where
+  | reads
+  | bytes
+  deriving DecidableEq, Repr
+
+class HasMeasure where
+  μ : Measure
+
+instance (priority := low) readsMeasure : HasMeasure := ⟨.reads⟩
+
+/-- the instance of the memory-side runs -/
+@[reducible] def bytesMeasure : HasMeasure := ⟨.bytes⟩
+
+/-- cost of one primitive call that sliced `sliced` bytes -/
+def tick (μ : Measure) (sliced : Nat) : Nat :=
+  match μ with
+  | .reads => 1
+  | .bytes => sliced
+
+@[simp] theorem tick_reads (n : Nat) : tick readsMeasure.μ n = 1 := rfl
+@[simp] theorem tick_bytes (n : Nat) : tick bytesMeasure.μ n = n := rfl
+
 /-! ## `struct` -/
 
 /-- `struct.calcsize` of one format character (`none`: "bad char in struct format"). -/
@@ -118,40 +147,41 @@ def slice (d : List UInt8) (cur n : Nat) : List UInt8 := (d.drop cur).take n
 
 /-- `relative_unpack(">" + fmt, data, cur)`:
     `size = struct.calcsize(fmt)`; underflow check; `struct.unpack`. -/
-def relativeUnpack (fmt : List Char) : Rd (List Int) := fun d c k =>
+def relativeUnpack [m : HasMeasure] (fmt : List Char) : Rd (List Int) := fun d c k =>
   match fmtSize fmt with
-  | none => .err .structError (k + 1)
+  | none => .err .structError (k + tick m.μ 0)
   | some size =>
-    if d.length < c + size then .err .bufferUnderflow (k + 1)
-    else .ok (decodeFields fmt (slice d c size)) (c + size) (k + 1)
+    if d.length < c + size then .err .bufferUnderflow (k + tick m.μ 0)
+    else .ok (decodeFields fmt (slice d c size)) (c + size) (k + tick m.μ size)
 
 /-- `relative_unpack(">%di" % n, data, cur)` (`ch` is the field character of the template):
     a negative count makes the format `">-3i"`, which `struct.calcsize` rejects. -/
-def relativeUnpackN (ch : Char) (n : Int) : Rd (List Int) := fun d c k =>
-  if n < 0 then .err .structError (k + 1)
+def relativeUnpackN [m : HasMeasure] (ch : Char) (n : Int) : Rd (List Int) := fun d c k =>
+  if n < 0 then .err .structError (k + tick m.μ 0)
   else match fldSize ch with
-    | none => .err .structError (k + 1)
+    | none => .err .structError (k + tick m.μ 0)
     | some w =>
       let size := n.toNat * w
-      if d.length < c + size then .err .bufferUnderflow (k + 1)
-      else .ok (decodeFields (List.replicate n.toNat ch) (slice d c size)) (c + size) (k + 1)
+      if d.length < c + size then .err .bufferUnderflow (k + tick m.μ 0)
+      else .ok (decodeFields (List.replicate n.toNat ch) (slice d c size)) (c + size) (k + tick m.μ size)
 
 /-! ## Length-prefixed strings (`afkak/_util.py`, after the F15 fix) -/
 
 /-- `read_short_bytes` (`w = 2`) / `read_int_string` (`w = 4`). -/
-def readLenBytes (w : Nat) : Rd (Option (List UInt8)) := fun d c k =>
-  if d.length < c + w then .err .bufferUnderflow (k + 1)
+def readLenBytes [m : HasMeasure] (w : Nat) : Rd (Option (List UInt8)) := fun d c k =>
+  if d.length < c + w then .err .bufferUnderflow (k + tick m.μ 0)
   else
+    -- the length prefix has been sliced (`w` bytes) from here on
     let strlen := toSigned w (beNat (slice d c w))
-    if strlen == -1 then .ok none (c + w) (k + 1)
-    else if strlen < 0 then .err .bufferUnderflow (k + 1)
+    if strlen == -1 then .ok none (c + w) (k + tick m.μ w)
+    else if strlen < 0 then .err .bufferUnderflow (k + tick m.μ w)
     else
       let c := c + w
-      if d.length < c + strlen.toNat then .err .bufferUnderflow (k + 1)
-      else .ok (some (slice d c strlen.toNat)) (c + strlen.toNat) (k + 1)
+      if d.length < c + strlen.toNat then .err .bufferUnderflow (k + tick m.μ w)
+      else .ok (some (slice d c strlen.toNat)) (c + strlen.toNat) (k + tick m.μ (w + strlen.toNat))
 
-def readShortBytes : Rd (Option (List UInt8)) := readLenBytes 2
-def readIntString : Rd (Option (List UInt8)) := readLenBytes 4
+def readShortBytes [HasMeasure] : Rd (Option (List UInt8)) := readLenBytes 2
+def readIntString [HasMeasure] : Rd (Option (List UInt8)) := readLenBytes 4
 
 /-- Python's strict UTF-8 decoder as a DFA: state = (continuation bytes still needed, bounds for the
     next byte). -/
@@ -183,9 +213,9 @@ def decodeText (valid : List UInt8 → Bool) : Option (List UInt8) → Rd (List 
   | some bs => if valid bs then pure bs else fail .unicodeDecode
 
 /-- `read_short_ascii`: one primitive call (counted once), then `.decode("ascii")`. -/
-def readShortAscii : Rd (List UInt8) := do decodeText validAscii (← readShortBytes)
+def readShortAscii [HasMeasure] : Rd (List UInt8) := do decodeText validAscii (← readShortBytes)
 /-- `read_short_text`: `.decode("utf-8")`. -/
-def readShortText : Rd (List UInt8) := do decodeText validUtf8 (← readShortBytes)
+def readShortText [HasMeasure] : Rd (List UInt8) := do decodeText validUtf8 (← readShortBytes)
 
 /-! ## Loops -/
 
@@ -247,39 +277,51 @@ def dictOf {κ ν : Type} [BEq κ] (items : List (κ × ν)) : List (κ × ν) :
 
 /-! ## Response decoders (`KafkaCodec.decode_*`) -/
 
-def decodeApiVersions : Rd Val := do
+/-- one iteration of the topic loop shared by produce, list-offsets, offset-commit and offset-fetch
+    responses: `topic = read_short_ascii; n = relative_unpack(">i"); for _ in range(n): part(topic)` -/
+def topicLoop [HasMeasure] (fN : List Char) (part : List UInt8 → Rd Val) : Rd (List Val) := do
+  let topic ← readShortAscii
+  let [numPartitions] ← relativeUnpack fN | fail .valueError
+  forRange numPartitions (part topic)
+
+/-- the topic loop; what `list(generator)` gives -/
+def topicsLoop [HasMeasure] (fN : List Char) (part : List UInt8 → Rd Val) (numTopics : Int) : Rd Val := do
+  let tss ← forRange numTopics (topicLoop fN part)
+  pure (.list tss.flatten)
+
+/-- one iteration of the loop of `decode_api_versions_response` -/
+def apiVersionEntry [HasMeasure] : Rd Val := do
+  let [k, lo, hi] ← relativeUnpack c12Fmt_apiversions_1 | fail .valueError
+  pure (Val.list [.int k, .int lo, .int hi])
+
+def decodeApiVersions [HasMeasure] : Rd Val := do
   let [_corr, errorCode, num] ← relativeUnpack c12Fmt_apiversions_0 | fail .valueError
-  let vs ← forRange num do
-    let [k, lo, hi] ← relativeUnpack c12Fmt_apiversions_1 | fail .valueError
-    pure (Val.list [.int k, .int lo, .int hi])
+  let vs ← forRange num apiVersionEntry
   pure (.list [.int errorCode, .list vs])
 
-/-- the body shared by `decode_produce_response.v0` / `.v2` (formats differ) -/
-def produceTopics (fHead fParts fPart : List Char) (arity : Nat) : Rd (List Val) := do
-  let [_corr, numTopics] ← relativeUnpack fHead | fail .valueError
-  let tss ← forRange numTopics do
-    let topic ← readShortAscii
-    let [numPartitions] ← relativeUnpack fParts | fail .valueError
-    forRange numPartitions do
-      let vs ← relativeUnpack fPart
-      if vs.length != arity then fail .valueError
-      else match vs with
-        | partition :: error :: offset :: _ => pure (Val.list [.bytes topic, .int partition, .int error, .int offset])
-        | _ => fail .valueError
-  pure tss.flatten
+/-- one iteration of the partition loop of `decode_produce_response` (`v0`: 3 fields, `v2`: 4) -/
+def producePartition [HasMeasure] (fPart : List Char) (arity : Nat) (topic : List UInt8) : Rd Val := do
+  let vs ← relativeUnpack fPart
+  if vs.length != arity then fail .valueError
+  else match vs with
+    | partition :: error :: offset :: _ => pure (Val.list [.bytes topic, .int partition, .int error, .int offset])
+    | _ => fail .valueError
 
-def decodeProduce (apiVersion : Int) : Rd Val :=
-  if apiVersion == 0 then do
-    let rs ← produceTopics c12Fmt_produce_0 c12Fmt_produce_1 c12Fmt_produce_2 3
-    pure (.list rs)
+/-- the body shared by `decode_produce_response.v0` / `.v2` (formats differ) -/
+def produceTopics [HasMeasure] (fHead fParts fPart : List Char) (arity : Nat) : Rd Val := do
+  let [_corr, numTopics] ← relativeUnpack fHead | fail .valueError
+  topicsLoop fParts (producePartition fPart arity) numTopics
+
+def decodeProduce [HasMeasure] (apiVersion : Int) : Rd Val :=
+  if apiVersion == 0 then produceTopics c12Fmt_produce_0 c12Fmt_produce_1 c12Fmt_produce_2 3
   else if apiVersion ≥ 1 then do
     let rs ← produceTopics c12Fmt_produce_3 c12Fmt_produce_4 c12Fmt_produce_5 4
     let _throttle ← relativeUnpack c12Fmt_produce_6
-    pure (.list rs)
+    pure rs
   else fail .valueError
 
 /-- the head of `decode_fetch_response`: correlation id, [throttle time,] topic count -/
-def fetchHead (apiVersion : Int) : Rd Int :=
+def fetchHead [HasMeasure] (apiVersion : Int) : Rd Int :=
   if apiVersion == 0 then do
     let [_corr, n] ← relativeUnpack c12Fmt_fetch_0 | fail .valueError
     pure n
@@ -289,137 +331,161 @@ def fetchHead (apiVersion : Int) : Rd Int :=
   else fail .unboundLocal
 
 /-- one iteration of the partition loop of `decode_fetch_response` -/
-def fetchPartition (topic : List UInt8) : Rd Val := do
+def fetchPartition [HasMeasure] (topic : List UInt8) : Rd Val := do
   let [partition, error, hw] ← relativeUnpack c12Fmt_fetch_3 | fail .valueError
   let messageSet ← readIntString
   pure (Val.list [.bytes topic, .int partition, .int error, .int hw, .mset messageSet])
 
 /-- one iteration of the topic loop of `decode_fetch_response` -/
-def fetchTopic : Rd (List Val) := do
+def fetchTopic [HasMeasure] : Rd (List Val) := do
   let topic ← readShortAscii
   let [numPartitions] ← relativeUnpack c12Fmt_fetch_2 | fail .valueError
   forRange numPartitions (fetchPartition topic)
 
 /-- the topic / partition loops of `decode_fetch_response` -/
-def fetchTopics (numTopics : Int) : Rd Val := do
+def fetchTopics [HasMeasure] (numTopics : Int) : Rd Val := do
   let tss ← forRange numTopics fetchTopic
   pure (.list tss.flatten)
 
-def decodeFetch (apiVersion : Int) : Rd Val := do
+def decodeFetch [HasMeasure] (apiVersion : Int) : Rd Val := do
   let numTopics ← fetchHead apiVersion
   fetchTopics numTopics
 
-def decodeOffset : Rd Val := do
-  let [_corr, numTopics] ← relativeUnpack c12Fmt_offset_0 | fail .valueError
-  let tss ← forRange numTopics do
-    let topic ← readShortAscii
-    let [numPartitions] ← relativeUnpack c12Fmt_offset_1 | fail .valueError
-    forRange numPartitions do
-      let [partition, error, numOffsets] ← relativeUnpack c12Fmt_offset_2 | fail .valueError
-      let offsets ← forRange numOffsets do
-        let [offset] ← relativeUnpack c12Fmt_offset_3 | fail .valueError
-        pure offset
-      pure (Val.list [.bytes topic, .int partition, .int error, ints offsets])
-  pure (.list tss.flatten)
+/-- one iteration of the offsets loop of `decode_offset_response` -/
+def offsetEntry [HasMeasure] : Rd Int := do
+  let [offset] ← relativeUnpack c12Fmt_offset_3 | fail .valueError
+  pure offset
 
-def decodeMetadata : Rd Val := do
-  let [_corr, numBrokers] ← relativeUnpack c12Fmt_metadata_0 | fail .valueError
-  if numBrokers > (c12MaxBrokers : Int) then fail .invalidMessage else
-  let brokers ← forRange numBrokers do
-    let [nodeId] ← relativeUnpack c12Fmt_metadata_1 | fail .valueError
-    let host ← readShortAscii
-    let [port] ← relativeUnpack c12Fmt_metadata_2 | fail .valueError
-    pure (nodeId, Val.list [.int nodeId, .bytes host, .int port])
+/-- one iteration of the partition loop of `decode_offset_response` -/
+def offsetPartition [HasMeasure] (topic : List UInt8) : Rd Val := do
+  let [partition, error, numOffsets] ← relativeUnpack c12Fmt_offset_2 | fail .valueError
+  let offsets ← forRange numOffsets offsetEntry
+  pure (Val.list [.bytes topic, .int partition, .int error, ints offsets])
+
+def decodeOffset [HasMeasure] : Rd Val := do
+  let [_corr, numTopics] ← relativeUnpack c12Fmt_offset_0 | fail .valueError
+  topicsLoop c12Fmt_offset_1 offsetPartition numTopics
+
+/-- one iteration of the broker loop of `decode_metadata_response`: the `brokers[nodeId] = …` item -/
+def metadataBroker [HasMeasure] : Rd (Int × Val) := do
+  let [nodeId] ← relativeUnpack c12Fmt_metadata_1 | fail .valueError
+  let host ← readShortAscii
+  let [port] ← relativeUnpack c12Fmt_metadata_2 | fail .valueError
+  pure (nodeId, Val.list [.int nodeId, .bytes host, .int port])
+
+/-- one iteration of the partition loop: the `partition_metadata[partition] = …` item -/
+def metadataPartition [HasMeasure] (topicName : List UInt8) : Rd (Int × Val) := do
+  let [pErr, partition, leader, numReplicas] ← relativeUnpack c12Fmt_metadata_6 | fail .valueError
+  let replicas ← relativeUnpackN c12Rep_metadata_7 numReplicas
+  let [numIsr] ← relativeUnpack c12Fmt_metadata_8 | fail .valueError
+  let isr ← relativeUnpackN c12Rep_metadata_9 numIsr
+  pure (partition, Val.list [.bytes topicName, .int partition, .int pErr, .int leader, ints replicas, ints isr])
+
+/-- one iteration of the topic loop: the `topic_metadata[topic_name] = …` item -/
+def metadataTopic [HasMeasure] : Rd (List UInt8 × Val) := do
+  let [topicError] ← relativeUnpack c12Fmt_metadata_4 | fail .valueError
+  let topicName ← readShortAscii
+  let [numPartitions] ← relativeUnpack c12Fmt_metadata_5 | fail .valueError
+  let parts ← forRange numPartitions (metadataPartition topicName)
+  let pm := (dictOf parts).map (fun e => Val.list [.int e.1, e.2])
+  pure (topicName, Val.list [.bytes topicName, .int topicError, .list pm])
+
+/-- `decode_metadata_response` after the broker-count guard -/
+def metadataBody [HasMeasure] (numBrokers : Int) : Rd Val := do
+  let brokers ← forRange numBrokers metadataBroker
   let [numTopics] ← relativeUnpack c12Fmt_metadata_3 | fail .valueError
-  let topics ← forRange numTopics do
-    let [topicError] ← relativeUnpack c12Fmt_metadata_4 | fail .valueError
-    let topicName ← readShortAscii
-    let [numPartitions] ← relativeUnpack c12Fmt_metadata_5 | fail .valueError
-    let parts ← forRange numPartitions do
-      let [pErr, partition, leader, numReplicas] ← relativeUnpack c12Fmt_metadata_6 | fail .valueError
-      let replicas ← relativeUnpackN c12Rep_metadata_7 numReplicas
-      let [numIsr] ← relativeUnpack c12Fmt_metadata_8 | fail .valueError
-      let isr ← relativeUnpackN c12Rep_metadata_9 numIsr
-      pure (partition, Val.list [.bytes topicName, .int partition, .int pErr, .int leader, ints replicas, ints isr])
-    let pm := (dictOf parts).map (fun e => Val.list [.int e.1, e.2])
-    pure (topicName, Val.list [.bytes topicName, .int topicError, .list pm])
+  let topics ← forRange numTopics metadataTopic
   let bd := (dictOf brokers).map (fun e => Val.list [.int e.1, e.2])
   let td := (dictOf topics).map (fun e => Val.list [.bytes e.1, e.2])
   pure (.list [.list bd, .list td])
 
-def decodeConsumerMetadata : Rd Val := do
+def decodeMetadata [HasMeasure] : Rd Val := do
+  let [_corr, numBrokers] ← relativeUnpack c12Fmt_metadata_0 | fail .valueError
+  if numBrokers > (c12MaxBrokers : Int) then fail .invalidMessage else metadataBody numBrokers
+
+def decodeConsumerMetadata [HasMeasure] : Rd Val := do
   let [_corr, errorCode, nodeId] ← relativeUnpack c12Fmt_consumermetadata_0 | fail .valueError
   let host ← readShortAscii
   let [port] ← relativeUnpack c12Fmt_consumermetadata_1 | fail .valueError
   pure (.list [.int errorCode, .int nodeId, .bytes host, .int port])
 
-def decodeOffsetCommit : Rd Val := do
+/-- one iteration of the partition loop of `decode_offset_commit_response` -/
+def offsetCommitPartition [HasMeasure] (topic : List UInt8) : Rd Val := do
+  let [partition, error] ← relativeUnpack c12Fmt_offsetcommit_3 | fail .valueError
+  pure (Val.list [.bytes topic, .int partition, .int error])
+
+def decodeOffsetCommit [HasMeasure] : Rd Val := do
   let [_corr] ← relativeUnpack c12Fmt_offsetcommit_0 | fail .valueError
   let [numTopics] ← relativeUnpack c12Fmt_offsetcommit_1 | fail .valueError
-  let tss ← forRange numTopics do
-    let topic ← readShortAscii
-    let [numPartitions] ← relativeUnpack c12Fmt_offsetcommit_2 | fail .valueError
-    forRange numPartitions do
-      let [partition, error] ← relativeUnpack c12Fmt_offsetcommit_3 | fail .valueError
-      pure (Val.list [.bytes topic, .int partition, .int error])
-  pure (.list tss.flatten)
+  topicsLoop c12Fmt_offsetcommit_2 offsetCommitPartition numTopics
 
-def decodeOffsetFetch : Rd Val := do
+/-- one iteration of the partition loop of `decode_offset_fetch_response` -/
+def offsetFetchPartition [HasMeasure] (topic : List UInt8) : Rd Val := do
+  let [partition, offset] ← relativeUnpack c12Fmt_offsetfetch_3 | fail .valueError
+  let metadata ← readShortBytes
+  let [error] ← relativeUnpack c12Fmt_offsetfetch_4 | fail .valueError
+  pure (Val.list [.bytes topic, .int partition, .int offset, optBytes metadata, .int error])
+
+def decodeOffsetFetch [HasMeasure] : Rd Val := do
   let [_corr] ← relativeUnpack c12Fmt_offsetfetch_0 | fail .valueError
   let [numTopics] ← relativeUnpack c12Fmt_offsetfetch_1 | fail .valueError
-  let tss ← forRange numTopics do
-    let topic ← readShortAscii
-    let [numPartitions] ← relativeUnpack c12Fmt_offsetfetch_2 | fail .valueError
-    forRange numPartitions do
-      let [partition, offset] ← relativeUnpack c12Fmt_offsetfetch_3 | fail .valueError
-      let metadata ← readShortBytes
-      let [error] ← relativeUnpack c12Fmt_offsetfetch_4 | fail .valueError
-      pure (Val.list [.bytes topic, .int partition, .int offset, optBytes metadata, .int error])
-  pure (.list tss.flatten)
+  topicsLoop c12Fmt_offsetfetch_2 offsetFetchPartition numTopics
 
-def decodeJoinGroupProtocolMetadata : Rd Val := do
+/-- one iteration of the subscription loop of `decode_join_group_protocol_metadata` -/
+def subscriptionEntry [HasMeasure] : Rd Val := do
+  let s ← readShortText
+  pure (Val.bytes s)
+
+def decodeJoinGroupProtocolMetadata [HasMeasure] : Rd Val := do
   let [version, numSubscriptions] ← relativeUnpack c12Fmt_joinmeta_0 | fail .valueError
-  let subs ← forRange numSubscriptions do
-    let s ← readShortText
-    pure (Val.bytes s)
+  let subs ← forRange numSubscriptions subscriptionEntry
   let userData ← readIntString
   pure (.list [.int version, .list subs, optBytes userData])
 
-def decodeJoinGroup : Rd Val := do
+/-- one iteration of the member loop of `decode_join_group_response` -/
+def joinGroupMember [HasMeasure] : Rd Val := do
+  let mid ← readShortText
+  let mdata ← readIntString
+  pure (Val.list [.bytes mid, optBytes mdata])
+
+def decodeJoinGroup [HasMeasure] : Rd Val := do
   let [_corr, error, generationId] ← relativeUnpack c12Fmt_join_0 | fail .valueError
   let groupProtocol ← readShortText
   let leaderId ← readShortText
   let memberId ← readShortText
   let [numMembers] ← relativeUnpack c12Fmt_join_1 | fail .valueError
-  let members ← forRange numMembers do
-    let mid ← readShortText
-    let mdata ← readIntString
-    pure (Val.list [.bytes mid, optBytes mdata])
+  let members ← forRange numMembers joinGroupMember
   pure (.list [.int error, .int generationId, .bytes groupProtocol, .bytes leaderId, .bytes memberId, .list members])
 
-def decodeErrorOnly (fmt : List Char) : Rd Val := do
+def decodeErrorOnly [HasMeasure] (fmt : List Char) : Rd Val := do
   let [_corr, error] ← relativeUnpack fmt | fail .valueError
   pure (.list [.int error])
 
-def decodeLeaveGroup : Rd Val := decodeErrorOnly c12Fmt_leave_0
-def decodeHeartbeat : Rd Val := decodeErrorOnly c12Fmt_heartbeat_0
+def decodeLeaveGroup [HasMeasure] : Rd Val := decodeErrorOnly c12Fmt_leave_0
+def decodeHeartbeat [HasMeasure] : Rd Val := decodeErrorOnly c12Fmt_heartbeat_0
 
-def decodeSyncGroup : Rd Val := do
+def decodeSyncGroup [HasMeasure] : Rd Val := do
   let [_corr, error] ← relativeUnpack c12Fmt_sync_0 | fail .valueError
   let memberAssignment ← readIntString
   pure (.list [.int error, optBytes memberAssignment])
 
-def decodeSyncGroupMemberAssignment : Rd Val := do
-  let [version, numAssignments] ← relativeUnpack c12Fmt_assignment_0 | fail .valueError
-  if version != 0 then fail .protocol else
-  let assignments ← forRange numAssignments do
-    let topic ← readShortAscii
-    let [numPartitions] ← relativeUnpack c12Fmt_assignment_1 | fail .valueError
-    let partitions ← relativeUnpackN c12Rep_assignment_2 numPartitions
-    pure (topic, ints partitions)
+/-- one iteration of the topic loop of `decode_sync_group_member_assignment` -/
+def assignmentTopic [HasMeasure] : Rd (List UInt8 × Val) := do
+  let topic ← readShortAscii
+  let [numPartitions] ← relativeUnpack c12Fmt_assignment_1 | fail .valueError
+  let partitions ← relativeUnpackN c12Rep_assignment_2 numPartitions
+  pure (topic, ints partitions)
+
+/-- the part of `decode_sync_group_member_assignment` after the version check -/
+def assignmentBody [HasMeasure] (version numAssignments : Int) : Rd Val := do
+  let assignments ← forRange numAssignments assignmentTopic
   let userData ← readIntString
   let ad := (dictOf assignments).map (fun e => Val.list [.bytes e.1, e.2])
   pure (.list [.int version, .list ad, optBytes userData])
+
+def decodeSyncGroupMemberAssignment [HasMeasure] : Rd Val := do
+  let [version, numAssignments] ← relativeUnpack c12Fmt_assignment_0 | fail .valueError
+  if version != 0 then fail .protocol else assignmentBody version numAssignments
 
 /-- Run a decoder the way the codec calls it: on the whole buffer from cursor 0. -/
 def run {α : Type} (m : Rd α) (data : List UInt8) : Res α := m data 0 0
